@@ -162,14 +162,16 @@ def build_series(frames_spec, cm=False, initial_guess=None):
     return s, infos, None
 
 
-def solve_frame(s, t, at, info, fit="dlite", method=None, allow_negatives=False, angle_limit=np.inf, solve_kwargs=None):
+def solve_frame(s, t, at, info, fit="dlite", method=None, allow_negatives=False, angle_limit=np.inf, solve_kwargs=None, rebuild=True):
+    """rebuild=False: solve on the force matrix that an earlier call left on the object"""
     r = Solved()
     r.exc = None
     r.warnings = []
     r.forsys, r.frame, r.info = s, s.frames[t], info
     try:
         with fsutil.quiet() as w:
-            s.build_force_matrix(when=t, circle_fit_method=fit, angle_limit=angle_limit)
+            if rebuild:
+                s.build_force_matrix(when=t, circle_fit_method=fit, angle_limit=angle_limit)
             r.fm = s.force_matrices[t]
             r.M = np.array(r.fm.matrix, float)
             kw = _resolve_kwargs(solve_kwargs, s.frames[t])
